@@ -420,8 +420,6 @@ package server
 // ---- C16: the result limit ----
 //@ trusted determineCompletionContext
 //@   effects none
-//@ trusted (*Server).generateCompletionItems
-//@   ensures fresh(result0) || len(result0) == 0
 //@ trusted extractQueryText
 //@   effects none
 //@ trusted rankCompletionItemsByScore
@@ -516,3 +514,45 @@ package server
 //@   requires s != nil && params != nil && DocSmall(s, params.TextDocument.URI)
 //@   ensures [C20:tree_transactions] result0 != nil && wsres(s, params.TextDocument.URI) != nil ==> len(allTransactions) == treeLen(wsres(s, params.TextDocument.URI).Primary, wsres(s, params.TextDocument.URI).Files, wsres(s, params.TextDocument.URI).FileOrder) && (forall i int :: {allTransactions[i]} 0 <= i && i < len(allTransactions) ==> allTransactions[i] == treeAt(wsres(s, params.TextDocument.URI).Primary, wsres(s, params.TextDocument.URI).Files, wsres(s, params.TextDocument.URI).FileOrder, i))
 //@   ensures [C20:balances_are_sums] result0 != nil && wsres(s, params.TextDocument.URI) != nil ==> forall a string, c string :: balances[a][c] == tsum(allTransactions, len(allTransactions), a, c)
+
+// ---- C16 / C15: candidate lists of completion ----
+// The candidates in account context: the accounts indexed under the typed parent prefix; when the prefix is not a key of
+// the index (it is cut heuristically at the last blank) every account stays a candidate, so that every existing name
+// that starts with the fragment can still be offered.
+//@ func getAccountsForPrefix
+//@   props C16
+//@   effects none
+//@   requires accounts != nil
+//@   ensures [C16:no_prefix_all] prefix == "" ==> result == accounts.All
+//@   ensures [C16:indexed_prefix] prefix != "" && has(accounts.ByPrefix, prefix) ==> result == accounts.ByPrefix[prefix]
+//@   ensures [C16:unindexed_prefix_keeps_all] prefix != "" && !has(accounts.ByPrefix, prefix) ==> result == accounts.All
+
+//@ trusted extractAccountPrefix
+//@   effects none
+//@ trusted extractCurrentTagName
+//@   effects none
+//@ trusted formatDetailWithCount
+//@   effects none
+//@ trusted formatPayeeDetailWithCount
+//@   effects none
+//@ trusted generateDateCompletionItems
+//@   ensures len(result) == 0 || fresh(result)
+
+// The items are built from the analysis lists in list order (one item per name, label = name): the response is a
+// function of those lists; no map is iterated.
+//@ func (*Server).generateCompletionItems
+//@   props C15 C16
+//@   requires result != nil && result.Accounts != nil
+//@   ensures [fresh] fresh(result0) || len(result0) == 0
+//@   ensures [C16:payee_labels] ctxType == ContextPayee ==> len(result0) == len(result.Payees) && (forall i int :: {result0[i]} 0 <= i && i < len(result0) ==> result0[i].Label == result.Payees[i])
+//@   ensures [C16:commodity_labels] ctxType == ContextCommodity ==> len(result0) == len(result.Commodities) && (forall i int :: {result0[i]} 0 <= i && i < len(result0) ==> result0[i].Label == result.Commodities[i])
+//@   ensures [C16:tag_labels] ctxType == ContextTagName ==> len(result0) == len(result.Tags) && (forall i int :: {result0[i]} 0 <= i && i < len(result0) ==> result0[i].Label == result.Tags[i])
+//@   loop 1 invariant 0 - 1 <= rangeindex && (fresh(items) || len(items) == 0) && len(items) == rangeindex + 1
+//@   loop 2 invariant 0 - 1 <= rangeindex && (fresh(items) || len(items) == 0) && len(items) == rangeindex + 1
+//@   loop 2 invariant forall i int :: {items[i]} 0 <= i && i < len(items) ==> items[i].Label == result.Payees[i]
+//@   loop 3 invariant 0 - 1 <= rangeindex && (fresh(items) || len(items) == 0) && len(items) == rangeindex + 1
+//@   loop 3 invariant forall i int :: {items[i]} 0 <= i && i < len(items) ==> items[i].Label == result.Commodities[i]
+//@   loop 4 invariant 0 - 1 <= rangeindex && (fresh(items) || len(items) == 0) && len(items) == rangeindex + 1
+//@   loop 4 invariant forall i int :: {items[i]} 0 <= i && i < len(items) ==> items[i].Label == result.Tags[i]
+//@   loop 5 invariant 0 - 1 <= rangeindex && (fresh(items) || len(items) == 0) && len(items) == rangeindex + 1
+//@   loop 6 invariant 0 - 1 <= rangeindex && (fresh(items) || len(items) == 0) && len(items) == rangeindex + 1
